@@ -1,6 +1,6 @@
 SPECIFICATION Spec
 CONSTANTS
-  TypeSet <- TypesU8X
+  TypeSet <- QuickA
   TopLen = 3
   TypesOnly = FALSE
   Dump = TRUE
